@@ -120,6 +120,20 @@ def gen_big(nfun, nstr, nstmt):
     return "".join(out)
 
 
+def gen_globals(nfun, nglob):
+    """nfun ordinary functions followed by top-level `let` globals: the bytecode compiler then appends a synthetic
+    initialiser function to the function table after all the declared ones, i.e. at an index chosen by nfun -- the
+    table's first allocation holds 32 entries and grows from there, so nfun around 32 / 64 puts the synthetic entry
+    (whose fields nobody back-patches) into freshly grown, never zeroed memory."""
+    out = ["let FIRST: int = 3\n"]
+    for i in range(nfun):
+        out.append("fn h%d(x: int) -> int {\n    return (+ x %d)\n}\nshadow h%d { assert (== (h%d 1) %d) }\n" % (i, i, i, i, i + 1))
+    for i in range(nglob):
+        out.append("let G%d: int = %d\n" % (i, 7 * i + 1))
+    out.append("fn main() -> int {\n    (println (+ (h%d FIRST) (h0 G%d)))\n    return 0\n}\nshadow main { assert true }\n" % (nfun - 1, nglob - 1))
+    return "".join(out)
+
+
 def gen_wide():
     """declarations whose member counts sit around the fixed-size buffers a compiler typically has: extern functions with
     0, 1, 15, 16, 17, 18, 32 and 40 parameters (declared, some called), functions with 16 / 17 / 33 parameters, structs
@@ -168,6 +182,8 @@ def build_corpus(tier, tree, lnk, work):
     progs.append(prog("g_big", {"main.nano": gen_big(120, 400, 1500)}, origin="generated: 120 functions, 400 strings, one 1500-statement function"))
     progs.append(prog("g_many", {"main.nano": gen_big(40, 100, 12)}, origin="generated: 40 functions, 100 strings"))
     progs.append(prog("g_wide", {"main.nano": gen_wide()}, origin="generated: declarations with member counts around 16 / 32 / 64 (extern parameters, parameters, fields, variants)"))
+    for nf in (30, 31, 32, 33, 63, 64, 65, 130):
+        progs.append(prog("g_glob%d" % nf, {"main.nano": gen_globals(nf, 3)}, origin="generated: %d functions + main, then top-level globals (synthetic initialiser entry lands at function-table index %d)" % (nf, nf + 1)))
     # enumerator batches: a leading block and an evenly strided block of every layer (deterministic slices of the
     # exhaustive enumeration; prefix and infix spelling).  The block length is the largest of 120/60/30/15 that both
     # tools accept (a batch can exceed a tool limit or contain a case of an open front-end finding).
@@ -191,7 +207,7 @@ def build_corpus(tier, tree, lnk, work):
                 if _accepted(tree, lnk, work, cand):
                     break
             progs.append(cand)
-    quick = ["c_structs", "c_floats", "c_strpool", "k_hashmap", "k_data", "k_builtins", "mm_one", "mm_two", "mm_extern", "mm_rebind", "g_big", "g_wide",
+    quick = ["c_structs", "c_floats", "c_strpool", "k_hashmap", "k_data", "k_builtins", "mm_one", "mm_two", "mm_extern", "mm_rebind", "g_big", "g_wide", "g_glob31", "g_glob33", "g_glob64",
              "d_typeerr", "d_noshadow", "d_shadowfail", "b_layer_S_head", "b_layer_D_head"]
     names = [p["name"] for p in progs]
     if len(set(names)) != len(names):
